@@ -773,3 +773,82 @@ def check_c01(chk, tier):
                 "Non-trivial = searches from a root with >= 4 nodes.")
     chk.assumptions = ["the projector (exhaustive destructuring of every pt type, checked by rustc) is the reference for 'all nodes'",
                        "solang-parser 0.1.18 is the definition of the parse tree"]
+
+
+# ---------------------------------------------------------------------------
+# C05 - C08 (what each detector must / may flag)
+# ---------------------------------------------------------------------------
+
+def _patterns_check(chk, tier, pid, max_records=None):
+    hb = vlib.build_harness("dev")
+    d = wdir(pid)
+    suffix = "quick" if tier == "quick" else "thorough"
+    r = vlib.tlc("MC_Patterns", "MC_Patterns.%s.%s.cfg" % (pid, suffix), workers=8, timeout=3400, xmx="12g", tag=pid)
+    chk.add_tlc(r)
+    beh = r.records.get("REPLAY", [])
+    if len(beh) < 300:
+        raise ToolError("MC_Patterns generated only %d files for %s" % (len(beh), pid))
+    if max_records and len(beh) > max_records:
+        step = len(beh) // max_records + 1
+        beh = beh[vlib.seed() % step::step]
+    bpath = os.path.join(d, "behaviours.ndjson")
+    vlib.write_ndjson(bpath, beh)
+    corpus = prepare_corpus()
+    tpath = os.path.join(d, "trace.ndjson")
+    xpath = os.path.join(d, "texts.ndjson")
+    res = vlib.harness(hb, ["detect-record", corpus, bpath, tpath, xpath], timeout=3400)
+    chk.add_harness(res, count_traces=False)
+    texts = vlib.read_ndjson(xpath)
+
+    def describe(rec, why):
+        det, verdict = why.split(":")
+        label = rec["src"].split(":", 1)[1] if rec["src"].startswith("gen") else rec["src"]
+        family = label.split("@")[0]
+        return ("%s:%s:%s" % (det, verdict, family),
+                "%s %s on %s: reported lines %s" % (det, verdict, rec["src"], rec["results"].get(det)), {"detector": det})
+    rtv = trace_validate(chk, "TV_Patterns", tpath, describe, env={"MODE": pid}, timeout=3400)
+    chk.nontrivial += int(rtv.get("exercised", 0))
+    for v in chk.violations:
+        case = v["replay"]
+        i = case.get("trace_index")
+        if i and i <= len(texts):
+            case["source"] = texts[i - 1]["text"]
+            rec = case.pop("trace_record", {})
+            case["observed"] = rec.get("results", {}).get(case.get("detector"))
+            case["label"] = rec.get("src")
+    chk.exhaustive = True
+    chk.assumptions = ["section 8 of DESIGN.md (Patterns.tla) is the reading of the documentation the verdicts are bound to",
+                       "lines: in generated files every token is on its own line, so a line identifies a token"]
+
+
+_PAT_RULE = ("TLC generates files from the instance families of PatGen/DeclGen.tla (canonical forms, documented variants, near "
+             "misses) placed in the frames of Gen.tla (syntactic positions), in host functions of several kinds and, for "
+             "declarations, in contract kinds / member positions / neighbourhoods of other items and attribute products; each file "
+             "is rendered one token per line, parsed, projected (round trip checked) and analysed by the real detectors; TV_Patterns "
+             "evaluates MustLines / MayLines of Patterns.tla on the projected tree and accepts iff Must <= reported <= May; corpus "
+             "programs are validated the same way. Non-trivial = records in which some detector of the property has a canonical "
+             "occurrence. ")
+
+
+@prop("C05")
+def check_c05(chk, tier):
+    _patterns_check(chk, tier, "C05")
+    chk.rule = _PAT_RULE + "C05: 11 expression-level gas detectors."
+
+
+@prop("C06")
+def check_c06(chk, tier):
+    _patterns_check(chk, tier, "C06")
+    chk.rule = _PAT_RULE + "C06: 5 declaration-level detectors; attribute products of functions and state variables, member arrangements x neighbourhoods."
+
+
+@prop("C07")
+def check_c07(chk, tier):
+    _patterns_check(chk, tier, "C07")
+    chk.rule = _PAT_RULE + "C07: 4 vulnerability detectors; selfdestruct shapes (function kind x visibility x modifiers x msg.sender usage), pragma families."
+
+
+@prop("C08")
+def check_c08(chk, tier):
+    _patterns_check(chk, tier, "C08")
+    chk.rule = _PAT_RULE + "C08: 4 mutability detectors; the 15 kinds of write in every position of every kind of function, immutable and calldata matrices."
